@@ -936,7 +936,41 @@ func (g *G) Decl(i int) ast.Statement {
 		g.t(typ, "DirectorDeclaration#2", true)
 		g.t("{", "DirectorDeclaration#3", true)
 		g.eol()
-		for k := r.Intn(3); k > 0; k-- {
+		// scalar properties and backend objects in any order (a scalar may follow a backend object)
+		nScalar, nObj := r.Intn(3), r.Intn(3)
+		var order []bool // true = scalar
+		for k := 0; k < nScalar; k++ {
+			order = append(order, true)
+		}
+		for k := 0; k < nObj; k++ {
+			order = append(order, false)
+		}
+		if r.Intn(2) == 0 {
+			r.Shuffle(len(order), func(a, b int) { order[a], order[b] = order[b], order[a] })
+		}
+		for _, scalar := range order {
+			if !scalar {
+				o := &ast.DirectorBackendObject{Values: []*ast.DirectorProperty{}}
+				g.t("{", "DirectorBackendObject#0", true)
+				for _, key := range []string{"backend", "weight"}[:1+r.Intn(2)] {
+					p := &ast.DirectorProperty{Key: &ast.Ident{Value: key}}
+					g.t(".", "DirectorBackendObject#dot", true)
+					g.t(key, "DirectorBackendObject#key", false)
+					g.t("=", "DirectorBackendObject#1", true)
+					if key == "backend" {
+						a := &Atom{Src: "F_origin_0", Cls: "ident", Node: &ast.Ident{Value: "F_origin_0"}}
+						p.Value = g.emitExpr(a, "DirectorBackendObject#2", true)
+					} else {
+						p.Value = g.emitExpr(g.Int(), "DirectorBackendObject#2", true)
+					}
+					g.t(";", "DirectorBackendObject#3", true)
+					o.Values = append(o.Values, p)
+				}
+				g.t("}", "DirectorBackendObject#end", true)
+				g.eol()
+				d.Properties = append(d.Properties, o)
+				continue
+			}
 			key := []string{"quorum", "retries", "key"}[r.Intn(3)]
 			p := &ast.DirectorProperty{Key: &ast.Ident{Value: key}}
 			g.t(".", "DirectorProperty#0", true)
@@ -956,27 +990,6 @@ func (g *G) Decl(i int) ast.Statement {
 			g.t(";", "DirectorProperty#3", true)
 			g.eol()
 			d.Properties = append(d.Properties, p)
-		}
-		for k := r.Intn(3); k > 0; k-- {
-			o := &ast.DirectorBackendObject{Values: []*ast.DirectorProperty{}}
-			g.t("{", "DirectorBackendObject#0", true)
-			for _, key := range []string{"backend", "weight"}[:1+r.Intn(2)] {
-				p := &ast.DirectorProperty{Key: &ast.Ident{Value: key}}
-				g.t(".", "DirectorBackendObject#dot", true)
-				g.t(key, "DirectorBackendObject#key", false)
-				g.t("=", "DirectorBackendObject#1", true)
-				if key == "backend" {
-					a := &Atom{Src: "F_origin_0", Cls: "ident", Node: &ast.Ident{Value: "F_origin_0"}}
-					p.Value = g.emitExpr(a, "DirectorBackendObject#2", true)
-				} else {
-					p.Value = g.emitExpr(g.Int(), "DirectorBackendObject#2", true)
-				}
-				g.t(";", "DirectorBackendObject#3", true)
-				o.Values = append(o.Values, p)
-			}
-			g.t("}", "DirectorBackendObject#end", true)
-			g.eol()
-			d.Properties = append(d.Properties, o)
 		}
 		g.t("}", "DirectorDeclaration#end", true)
 		g.eol()
